@@ -1,3 +1,5 @@
 pub mod c07;
 pub mod c09;
 pub mod c01;
+pub mod c13;
+pub mod c18;
